@@ -336,7 +336,7 @@ def hals_objective(G, B, V, l1, l2):
 
 
 # ----------------------------------------------------------------------------- the runs
-BUDGET = {"quick": dict(cp=84, hals=36, ls=32, norm=12, reg=12, tk=10, cmtf=8, tkreg=8, tr=10, spec=8, proc=8, rep=12, tks=4, modes=40),
+BUDGET = {"quick": dict(cp=80, hals=36, ls=32, norm=12, reg=12, tk=9, cmtf=8, tkreg=8, tr=10, spec=6, proc=6, rep=10, tks=3, modes=40),
           "thorough": dict(cp=480, hals=220, ls=200, norm=80, reg=50, tk=60, cmtf=50, tkreg=40, tr=60, spec=60, proc=60, rep=80, tks=30, modes=200)}
 KINDS = ("cp", "hals", "ls", "norm", "reg", "tk", "cmtf", "tkreg", "tr", "spec", "proc", "rep", "tks", "modes")
 
